@@ -285,7 +285,11 @@ class Sgp4Beta:
         i0, Ω0, e0, ω0, M0, n0 = self.tle
         n0 *= 60  # conversion to min⁻¹
         if isinstance(date, Date):
-            tdiff = (date - self.tle.date).total_seconds() / 60.0
+            # As for the reference SGP4, the time since epoch is a difference
+            # of UTC calendar dates (leap seconds are not counted)
+            utc = date.change_scale("UTC").datetime
+            utc0 = self.tle.date.change_scale("UTC").datetime
+            tdiff = (utc - utc0).total_seconds() / 60.0
         elif isinstance(date, timedelta):
             tdiff = date.total_seconds() / 60.0
             date = self.tle.date + date
